@@ -589,7 +589,7 @@ def rule_entry_validation(col, facts):
         # a back-end, or a helper of this crate that dispatches to the back-ends (`write_finite`, `write_non_finite`)
         if cn.endswith(BACKENDS) and not cn.endswith("WriteFloat::write_float"):
             return True
-        return any(h.crate == wf.crate and h.short != wf.short and any(callee_name(c2).endswith(BACKENDS[:2]) or "special" in callee_name(c2) or "nan_string" in callee_name(c2) for _b2, c2, _a2, _d2, _t2 in h.calls()) for h in facts.by_short.get(cn, []))
+        return any(h.crate == wf.crate and h.short != wf.short and not h.impl_trait and any(callee_name(c2).endswith(BACKENDS[:2]) or "special" in callee_name(c2) or "nan_string" in callee_name(c2) for _b2, c2, _a2, _d2, _t2 in h.calls()) for h in facts.by_short.get(cn, []))
     for bb, c, a, _d, _t in wf.calls():
         cn = callee_name(c)
         if _holds_backends(cn):
